@@ -55,6 +55,7 @@ type c03Input struct {
 	UnrollLevel string `json:"unrollLevel"`
 	Methods []BMethod `json:"methods"`
 	Ops     []C03Op   `json:"ops"`
+	Decoy   bool      `json:"decoy,omitempty"`
 	// the interface is generic (`Store[T any]`, T stands where Named is used) and the driver instantiates it
 	Generic bool `json:"generic"`
 	// per method: what the template's emitted text depends on (read by Gen/TestifyEmit.lean)
@@ -82,6 +83,7 @@ func (c03) Generate(c *Ctx) []any {
 		in := c03Input{Unroll: []string{"unset", "false", "true"}[i%3], UnrollLevel: []string{"top", "package", "interface", "interface-over-package"}[(i/3)%4]}
 		nm := 1 + r.Intn(3)
 		in.Generic = r.Intn(4) == 0
+		in.Decoy = i%4 != 3
 		for k := 0; k < nm; k++ {
 			m := genBMethod(r, bMethodNames[k])
 			if i%2 == 0 && k == 0 && m.Variadic < 0 {
@@ -210,6 +212,11 @@ func c03Config(in *c03Input) string {
 	b.WriteString("    interfaces:\n      Store:\n")
 	if set && (in.UnrollLevel == "interface" || in.UnrollLevel == "interface-over-package") {
 		fmt.Fprintf(&b, "        config:\n          template-data:\n            unroll-variadic: %s\n", in.Unroll)
+	}
+	if in.Decoy {
+		// an unrelated recursive package with a listed sub-package says the opposite
+		y, _ := decoyPackages([]string{fmt.Sprintf("unroll-variadic: %v", !in.unrolled())})
+		b.WriteString(y)
 	}
 	return b.String()
 }
